@@ -385,6 +385,8 @@ def step_list(ctx, g, h, sh, rng):
             "reversed": (lambda: [w.n(x) for x in reversed(ml)], lambda: list(reversed(l))),
         }
         if m == "index_bounds":
+            if l and rng.random() < 0.7:
+                v = rng.choice(l)          # mostly a module that IS in the list: the bounds decide
             # list.index(x, start[, stop]) with integer bounds of every sign, 0 and beyond the ends included
             a = rng.choice([0, 0, 1, 2, -1, -2, -5, 5, len(l), -len(l)])
             b = rng.choice([0, 0, 1, 2, 3, -1, -2, -5, 5, len(l), -len(l)])
@@ -506,6 +508,82 @@ def step_dict(ctx, g, h, sh, rng):
     return desc, None
 
 
+def exhaustive_small_list(ctx, g):
+    """Every index / bound / slice argument in -4..4 (and None) on a three-module list, each mutating call on a fresh IR: the index
+    arithmetic of ir.modules against the built-in list, deterministically on every run.  After a mutating call the ownership of
+    all modules is checked against the list."""
+    R = range(-4, 5)
+
+    def fresh():
+        ir = g.IR()
+        ms = [g.Module(name="m%d" % i, ir=ir) for i in range(3)]
+        return ir, ms, g.Module(name="free"), list(range(3))
+
+    def outcome(f):
+        try:
+            return ("ok", f())
+        except Exception as e:  # noqa: BLE001
+            return ("err", exc_name(g, e))
+
+    def judge(desc, ri, rs, ir=None, ms=None, extra=None, l=None):
+        ctx.count("exhaustive_list_calls")
+        if ri != rs:
+            ctx.add("oracle", "not-like-builtin:" + desc.split("(")[0].split("[")[0], "ir.modules (3 modules) %s: returns/raises %s, the built-in list %s" % (desc, ri, rs),
+                    {"call": desc, "impl": repr(ri), "builtin": repr(rs)})
+            return
+        if ir is not None:
+            allm = ms + [extra]
+            got = [allm.index(x) for x in ir.modules]
+            owned = [i for i, x in enumerate(allm) if x.ir is ir]
+            if got != l or sorted(owned) != sorted(set(l)):
+                ctx.add("oracle", "not-like-builtin:" + desc.split("(")[0].split("[")[0], "ir.modules (3 modules) %s: list is %s and modules %s name the IR; the built-in gives %s"
+                        % (desc, got, owned, l), {"call": desc})
+    ir, ms, extra, l = fresh()
+    for xi, x in enumerate(ms + [extra]):
+        for a in R:
+            judge("index(m%d, %d)" % (xi, a), outcome(lambda: ir.modules.index(x, a)), outcome(lambda: (l + [])[0:0] or l.index(xi, a)))
+            for b in R:
+                judge("index(m%d, %d, %d)" % (xi, a, b), outcome(lambda: ir.modules.index(x, a, b)), outcome(lambda: l.index(xi, a, b)))
+        judge("count(m%d)" % xi, outcome(lambda: ir.modules.count(x)), outcome(lambda: l.count(xi)))
+        judge("m%d in" % xi, outcome(lambda: x in ir.modules), outcome(lambda: xi in l))
+    allm = ms + [extra]
+    for a in list(R) + [None]:
+        judge("[%s]" % a, outcome(lambda: allm.index(ir.modules[a])) if a is not None else ("ok", None), outcome(lambda: l[a]) if a is not None else ("ok", None))
+        for b in list(R) + [None]:
+            for st in (None, 1, 2, -1, -2, 3):
+                judge("[%s:%s:%s]" % (a, b, st), outcome(lambda: [allm.index(y) for y in ir.modules[a:b:st]]), outcome(lambda: l[a:b:st]))
+    for i in R:
+        for name in ("insert", "pop", "del", "setitem"):
+            ir, ms, extra, l = fresh()
+            allm = ms + [extra]
+            if name == "insert":
+                ri, rs = outcome(lambda: ir.modules.insert(i, extra)), outcome(lambda: l.insert(i, 3))
+            elif name == "pop":
+                ri, rs = outcome(lambda: allm.index(ir.modules.pop(i))), outcome(lambda: l.pop(i))
+            elif name == "del":
+                ri, rs = outcome(lambda: ir.modules.__delitem__(i)), outcome(lambda: l.__delitem__(i))
+            else:
+                ri, rs = outcome(lambda: ir.modules.__setitem__(i, extra)), outcome(lambda: l.__setitem__(i, 3))
+            judge("%s(%d)" % (name, i), ri, rs, ir, ms, extra, l)
+        for j in list(R) + [None]:
+            for name in ("delslice", "setslice"):
+                ir, ms, extra, l = fresh()
+                sl = slice(i, j)
+                if name == "delslice":
+                    ri, rs = outcome(lambda: ir.modules.__delitem__(sl)), outcome(lambda: l.__delitem__(sl))
+                else:
+                    ri, rs = outcome(lambda: ir.modules.__setitem__(sl, [extra])), outcome(lambda: l.__setitem__(sl, [3]))
+                judge("%s[%s:%s]" % (name, i, j), ri, rs, ir, ms, extra, l)
+    for name in ("pop()", "clear()", "reverse()", "extend([free])", "+= [free]", "remove(m1)", "append(free)"):
+        ir, ms, extra, l = fresh()
+        f = {"pop()": (lambda: (ms + [extra]).index(ir.modules.pop()), lambda: l.pop()), "clear()": (lambda: ir.modules.clear(), lambda: l.clear()),
+             "reverse()": (lambda: ir.modules.reverse(), lambda: l.reverse()), "extend([free])": (lambda: ir.modules.extend([extra]), lambda: l.extend([3])),
+             "+= [free]": (lambda: ir.modules.__iadd__([extra]) and None, lambda: l.__iadd__([3]) and None),
+             "remove(m1)": (lambda: ir.modules.remove(ms[1]), lambda: l.remove(1)), "append(free)": (lambda: ir.modules.append(extra), lambda: l.append(3))}[name]
+        judge(name, outcome(f[0]), outcome(f[1]), ir, ms, extra, l)
+    ctx.case("exhaustive-small-list", True)
+
+
 def d4_stream(ctx, g):
     """the recorded defect: assigning into ir.modules an element that is elsewhere in the same list, and reverse()"""
     for shape in ("setitem-same-list", "setslice-same-list"):
@@ -557,6 +635,7 @@ def run(ctx):
         hists.append(h)
         ctx.case(repr(h.items), True)
     d4_stream(ctx, g)
+    exhaustive_small_list(ctx, g)
     worldgen.compare(ctx, hists, "wrappers", "C16 collection correspondence")
     ctx.cov["histories"] = nh
     ctx.cov["traces_validated_against_impl"] = nh
